@@ -6,6 +6,7 @@ mod c01;
 mod c02;
 mod c03;
 mod c04;
+mod c05;
 mod c06;
 mod c10;
 mod c11;
@@ -23,6 +24,7 @@ fn main() {
         ("c02", "drive") => c02::drive(&kv),
         ("c03", "drive") => c03::drive(&kv),
         ("c04", "drive") => c04::drive(&kv),
+        ("c05", "drive") => c05::drive(&kv),
         ("c06", "drive") => c06::drive(&kv),
         ("c10", "drive") => c10::drive(&kv),
         ("c11", "drive") => c11::drive(&kv),
